@@ -117,6 +117,37 @@ func OkDiscipline(r *Run, fn *ssa.Function) int {
 					CalleeName(vc.Call), use.String(), FuncName(fn))
 			}
 		}
+		// the data a SUCCESSFUL sub-match hands back carries what it bound: unless the sub-match was given a
+		// fresh, throw-away data (data.New(): a comparison that must not bind), its data result is taken and used
+		fresh := false
+		hasDataArg := false
+		for _, a := range CallArgs(vc.Call) {
+			if !IsNamed(a.Type(), dataPkg, "Data") {
+				continue
+			}
+			hasDataArg = true
+			if c, ok := a.(*ssa.Call); ok {
+				if sc := c.Call.StaticCallee(); sc != nil && sc.Name() == "New" && sc.Pkg != nil && sc.Pkg.Pkg.Path() == dataPkg {
+					fresh = true
+				}
+			}
+		}
+		if hasDataArg && !fresh && !returnsTuple(vc.Call) {
+			used := false
+			for _, ex := range dataResults(vc.Call) {
+				if refs := ex.Referrers(); refs != nil {
+					for _, u := range *refs {
+						if _, isDbg := u.(*ssa.DebugRef); !isDbg {
+							used = true
+						}
+					}
+				}
+			}
+			if !used {
+				bad = true
+				r.Fail(key+"|bindings-dropped", vc.Call.Pos(), "the data returned by a successful %s is discarded in %s: what the sub-match bound (a metavariable, a recorded elision) is lost, later occurrences bind afresh", CalleeName(vc.Call), FuncName(fn))
+			}
+		}
 		if !bad {
 			r.Pass(key, vc.Call.Pos(), "every return reachable after a false verdict of %s returns false or that verdict (%d branch(es) on it)", CalleeName(vc.Call), len(brs))
 		}
